@@ -947,7 +947,7 @@ func (m *Machine) binop(op token.Token, a, b Value, at, bt types.Type) Value {
 
 func (m *Machine) freshOpaqueString(why string) StringV {
 	m.ufSeq++
-	return StringV{Opaque: m.TT.Sym(fmt.Sprintf("$str.%s.%d", why, m.ufSeq), IntSort)}
+	return StringV{Opaque: m.TT.Sym(fmt.Sprintf("$str.%s.%d", why, m.ufSeq), BV(64))}
 }
 
 func (m *Machine) stringEq(x, y StringV) *Term {
@@ -1473,7 +1473,13 @@ func (m *Machine) rangeNext(fr *frame, x *ssa.Next) Value {
 	}
 	if it.Pos >= len(it.Entries) {
 		tup := x.Type().(*types.Tuple)
-		return TupleV{m.TT.False, m.zero(tup.At(1).Type()), m.zero(tup.At(2).Type())}
+		zeroOrNil := func(t types.Type) Value {
+			if b, ok := t.(*types.Basic); ok && b.Kind() == types.Invalid {
+				return nil
+			}
+			return m.zero(t)
+		}
+		return TupleV{m.TT.False, zeroOrNil(tup.At(1).Type()), zeroOrNil(tup.At(2).Type())}
 	}
 	e := it.Entries[it.Pos]
 	it.Pos++
